@@ -358,3 +358,895 @@ def _string_literal(tok, where):
         return bytes(out).decode('utf-8')
     except UnicodeDecodeError:
         raise Unsupported('%s: string is not UTF-8' % where)
+
+
+# ------------------------------------------------------------------------------------ parser
+def _ty(base, kind, q=0, ptrs=(), dims=()):
+    return {'base': base, 'kind': kind, 'q': q, 'ptrs': list(ptrs), 'dims': list(dims)}
+
+
+class _Specs(object):
+    def __init__(self):
+        self.storage = set()
+        self.inline = False
+        self.q = 0
+        self.words = []
+        self.spec = None       # ('void',) | ('typedef', name) | ('compound', info) | ('enum', info)
+
+    def has_body(self):
+        return self.spec is not None and self.spec[0] in ('compound', 'enum') and self.spec[1].get('body') is not None
+
+    def base_type(self, where):
+        if self.words:
+            return _ty(' '.join(self.words), 'basic', self.q)
+        if self.spec is None:
+            raise Unsupported('%s: declaration without a type specifier (implicit int)' % where)
+        k = self.spec[0]
+        if k == 'void':
+            return _ty('void', 'void', self.q)
+        if k == 'typedef':
+            return _ty(self.spec[1], 'typedef', self.q)
+        info = self.spec[1]
+        if info.get('body') is not None:
+            raise Unsupported('%s: %s definition used inside another declaration' % (where, info['kw']))
+        if info['tag'] is None:
+            raise Unsupported('%s: %s without tag or body' % (where, info['kw']))
+        return _ty(info['tag'], info['kw'], self.q)
+
+
+class _Parser(object):
+    def __init__(self, toks, filename, typedefs):
+        self.toks = toks
+        self.pos = 0
+        self.file = filename
+        self.typedefs = typedefs
+        self.private = False
+        self.flags = False
+        self.enumerators = {}
+        self.decls = []
+
+    # -- token access; markers take effect when the token after them is consumed
+    def _next_real(self, pos):
+        while self.toks[pos].kind == 'marker':
+            pos += 1
+        return pos
+
+    def peek(self, k=0):
+        pos = self._next_real(self.pos)
+        for _ in range(k):
+            pos = self._next_real(pos + 1)
+        return self.toks[pos]
+
+    def advance(self):
+        while self.toks[self.pos].kind == 'marker':
+            for item in self.toks[self.pos].data:
+                if item == 'public':
+                    self.private = False
+                elif item == 'private':
+                    self.private = True
+                elif item == 'flags':
+                    self.flags = True
+            self.pos += 1
+        t = self.toks[self.pos]
+        if t.kind != 'eof':
+            self.pos += 1
+        if t.kind == 'id':
+            if t.text in ('struct', 'union'):
+                self.private = False
+            elif t.text == 'enum':
+                self.private = False
+                self.flags = False
+        return t
+
+    def where(self, t=None):
+        t = t or self.peek()
+        return '%s:%d' % (self.file, t.line)
+
+    def is_p(self, text, k=0):
+        t = self.peek(k)
+        return t.kind == 'punct' and t.text == text
+
+    def expect(self, text):
+        t = self.peek()
+        if not (t.kind == 'punct' and t.text == text):
+            raise Unsupported('%s: expected %r, found %r' % (self.where(t), text, t.text))
+        return self.advance()
+
+    def is_typename(self, t):
+        return t.kind == 'id' and t.text in self.typedefs and t.text not in KEYWORDS
+
+    def starts_type(self, t):
+        return t.kind == 'id' and (t.text in BASIC_WORDS or t.text in ('void', 'const', 'volatile', 'struct',
+                                                                      'union', 'enum') or self.is_typename(t))
+
+    # -- specifiers
+    def specifiers(self, allow_storage):
+        sp = _Specs()
+        while True:
+            t = self.peek()
+            if t.kind != 'id':
+                break
+            w = t.text
+            if w in UNSUPPORTED_WORDS:
+                raise Unsupported('%s: %r' % (self.where(t), w))
+            if w in STORAGE_WORDS:
+                if not allow_storage:
+                    raise Unsupported('%s: storage class %r here' % (self.where(t), w))
+                sp.storage.add(w)
+                self.advance()
+            elif w in INLINE_WORDS:
+                if not allow_storage:
+                    raise Unsupported('%s: inline here' % self.where(t))
+                sp.inline = True
+                self.advance()
+            elif w in ('const', '__const'):
+                sp.q |= CONST
+                self.advance()
+            elif w in ('volatile', '__volatile', '__volatile__'):
+                sp.q |= VOLATILE
+                self.advance()
+            elif w == 'void':
+                if sp.spec or sp.words:
+                    raise Unsupported('%s: two type specifiers' % self.where(t))
+                sp.spec = ('void',)
+                self.advance()
+            elif w in BASIC_WORDS:
+                if sp.spec:
+                    raise Unsupported('%s: two type specifiers' % self.where(t))
+                sp.words.append(w)
+                self.advance()
+            elif w in ('struct', 'union'):
+                if sp.spec or sp.words:
+                    raise Unsupported('%s: two type specifiers' % self.where(t))
+                sp.spec = ('compound', self.compound_spec())
+            elif w == 'enum':
+                if sp.spec or sp.words:
+                    raise Unsupported('%s: two type specifiers' % self.where(t))
+                sp.spec = ('enum', self.enum_spec())
+            elif self.is_typename(t) and sp.spec is None and not sp.words:
+                sp.spec = ('typedef', w)
+                self.advance()
+            else:
+                break
+        return sp
+
+    def compound_spec(self):
+        kw = self.advance().text
+        info = {'kw': kw, 'tag': None, 'body': None, 'line_close': None}
+        t = self.peek()
+        if t.kind == 'id':
+            if t.text in KEYWORDS:
+                raise Unsupported('%s: keyword %r as tag' % (self.where(t), t.text))
+            info['tag'] = self.advance().text
+        if self.is_p('{'):
+            self.advance()
+            info['body'] = self.fields()
+            info['line_close'] = self.expect('}').line
+        return info
+
+    def fields(self):
+        out = []
+        if self.is_p('}'):
+            raise Unsupported('%s: empty struct/union body (a syntax error for the front end)' % self.where())
+        while not self.is_p('}'):
+            t0 = self.peek()
+            if t0.kind == 'eof':
+                raise Unsupported('%s: unterminated body' % self.where())
+            sp = self.specifiers(False)
+            w = self.where(t0)
+            group = []
+            if sp.has_body():
+                if sp.spec[0] == 'enum':
+                    raise Unsupported('%s: enum defined inside a struct' % w)
+                info = sp.spec[1]
+                if info['tag'] is not None:
+                    raise Unsupported('%s: nested named %s definition' % (w, info['kw']))
+                if sp.q:
+                    raise Unsupported('%s: qualified anonymous member' % w)
+                f = {'name': None, 'anon': info['kw'], 'fields': info['body'], 'dims': []}
+                if not self.is_p(';'):
+                    name, ops, _ = self.declarator(False)
+                    if any(o[0] != 'arr' for o in ops):
+                        raise Unsupported('%s: pointer/function declarator on an inline %s' % (w, info['kw']))
+                    f['name'] = name
+                    f['dims'] = [o[1] for o in ops]
+                group.append(f)
+            else:
+                if sp.spec is None and not sp.words:
+                    raise Unsupported('%s: expected a member declaration, found %r' % (w, t0.text))
+                base = sp.base_type(w)
+                while True:
+                    if self.is_p(':'):
+                        self.advance()
+                        group.append({'name': None, 'type': base, 'bits': self.int_constant()})
+                    else:
+                        name, ops, _ = self.declarator(False)
+                        f = {'name': name, 'type': self.data_type(base, ops, w), 'bits': None}
+                        if self.is_p(':'):
+                            self.advance()
+                            f['bits'] = self.int_constant()
+                        group.append(f)
+                    if self.is_p(','):
+                        self.advance()
+                        continue
+                    break
+            self.expect(';')
+            for f in group:
+                f['private'] = self.private
+            out.extend(group)
+        return out
+
+    def int_constant(self):
+        t = self.peek()
+        if t.kind != 'num':
+            raise Unsupported('%s: only integer literals are accepted here, found %r' % (self.where(t), t.text))
+        self.advance()
+        return _int_literal(t, self.where(t))[0]
+
+    def enum_spec(self):
+        self.advance()
+        info = {'kw': 'enum', 'tag': None, 'body': None, 'flags': False}
+        t = self.peek()
+        if t.kind == 'id':
+            if t.text in KEYWORDS:
+                raise Unsupported('%s: keyword %r as tag' % (self.where(t), t.text))
+            info['tag'] = self.advance().text
+        if not self.is_p('{'):
+            return info
+        self.advance()
+        members = []
+        last = -1
+        if self.is_p('}'):
+            raise Unsupported('%s: empty enum' % self.where())
+        while True:
+            t = self.peek()
+            if t.kind != 'id' or t.text in KEYWORDS:
+                raise Unsupported('%s: expected an enumerator, found %r' % (self.where(t), t.text))
+            if self.is_typename(t):
+                raise Unsupported('%s: enumerator %r is a typedef name' % (self.where(t), t.text))
+            self.advance()
+            m = {'name': t.text, 'value': None, 'shift': False}
+            if self.is_p('='):
+                self.advance()
+                ev = _EnumExpr(self)
+                m['value'] = ev.parse()
+                m['shift'] = ev.shift
+            members.append(m)
+            last = m['value'] if m['value'] is not None else last + 1
+            self.enumerators[m['name']] = last
+            if self.is_p(','):
+                self.advance()
+                m['private'] = self.private
+                if self.is_p('}'):
+                    self.advance()
+                    break
+                continue
+            self.expect('}')
+            m['private'] = self.private
+            break
+        info['flags'] = self.flags
+        # values for later references
+        info['body'] = members
+        return info
+
+    # -- declarators: returns (name, ops from the identifier outwards, line of the name)
+    def declarator(self, abstract_ok):
+        ptrs = []
+        while self.is_p('*'):
+            self.advance()
+            q = 0
+            while self.peek().kind == 'id' and self.peek().text in ('const', 'volatile', '__const', 'restrict',
+                                                                    '__restrict', '__restrict__'):
+                w = self.advance().text
+                if 'restrict' in w:
+                    raise Unsupported('%s: restrict' % self.where())
+                q |= CONST if 'const' in w else VOLATILE
+            ptrs.append(q)
+        name, ops, line = None, [], self.peek().line
+        t = self.peek()
+        if self.is_p('(') and self._paren_opens_declarator(abstract_ok):
+            self.advance()
+            name, ops, line = self.declarator(abstract_ok)
+            self.expect(')')
+        elif t.kind == 'id' and t.text not in KEYWORDS:
+            if self.is_typename(t):
+                raise Unsupported('%s: %r is a typedef name and cannot be declared again (the lexer returns '
+                                  'TYPEDEF_NAME)' % (self.where(t), t.text))
+            self.advance()
+            name, line = t.text, t.line
+        elif not abstract_ok:
+            raise Unsupported('%s: expected a declarator, found %r' % (self.where(t), t.text))
+        while True:
+            if self.is_p('['):
+                self.advance()
+                if self.is_p(']'):
+                    ops.append(('arr', None))
+                else:
+                    ops.append(('arr', self.int_constant()))
+                self.expect(']')
+            elif self.is_p('('):
+                self.advance()
+                ops.append(('fun', self.params()))
+                self.expect(')')
+            else:
+                break
+        for q in reversed(ptrs):
+            ops.append(('ptr', q))
+        return name, ops, line
+
+    def _paren_opens_declarator(self, abstract_ok):
+        if not abstract_ok:
+            return True
+        t = self.peek(1)
+        if t.kind == 'punct':
+            return t.text in ('*', '(', '[')
+        if t.kind == 'id':
+            return not (self.starts_type(t) or t.text in KEYWORDS)
+        return False
+
+    def params(self):
+        if self.is_p(')'):
+            return []
+        out = []
+        while True:
+            if self.is_p('...'):
+                self.advance()
+                out.append({'ellipsis': True})
+            else:
+                t0 = self.peek()
+                w = self.where(t0)
+                if t0.kind == 'id' and not self.starts_type(t0) and t0.text not in KEYWORDS:
+                    raise Unsupported('%s: %r is not a known type (K&R identifier list or missing typedef)' % (w, t0.text))
+                sp = self.specifiers(False)
+                if sp.has_body():
+                    raise Unsupported('%s: type defined in a parameter list' % w)
+                base = sp.base_type(w)
+                name, ops, _ = self.declarator(True)
+                out.append({'name': name, 'type': self.data_type(base, ops, w)})
+            if self.is_p(','):
+                self.advance()
+                continue
+            break
+        if len(out) == 1 and not out[0].get('ellipsis') and out[0]['name'] is None:
+            t = out[0]['type']
+            if t.get('fp') is None and t['kind'] == 'void' and not t['ptrs'] and not t['dims']:
+                if t['q']:
+                    raise Unsupported('qualified (void) parameter list')
+                return []
+        for p in out:
+            if not p.get('ellipsis') and p['type'].get('fp') is None and p['type']['kind'] == 'void' \
+                    and not p['type']['ptrs']:
+                raise Unsupported('void parameter among others')
+        return out
+
+    def data_type(self, base, ops, where):
+        """ops (identifier outwards) applied over the specifier type -> model Type, or Unsupported."""
+        i = 0
+        dims = []
+        while i < len(ops) and ops[i][0] == 'arr':
+            dims.append(ops[i][1])
+            i += 1
+        rest = ops[i:]
+        if all(o[0] == 'ptr' for o in rest):
+            t = dict(base)
+            t['ptrs'] = [o[1] for o in reversed(rest)]
+            t['dims'] = dims
+            return t
+        if len(rest) >= 2 and rest[0] == ('ptr', 0) and rest[1][0] == 'fun' and all(o[0] == 'ptr' for o in rest[2:]):
+            ret = dict(base)
+            ret['ptrs'] = [o[1] for o in reversed(rest[2:])]
+            ret['dims'] = []
+            return {'fp': {'ret': ret, 'params': rest[1][1]}, 'dims': dims}
+        raise Unsupported('%s: declarator shape %s is outside the model' % (where, ' '.join(o[0] for o in ops)))
+
+    # -- external declarations
+    def translation_unit(self):
+        while True:
+            t = self.peek()
+            if t.kind == 'eof':
+                self.advance()
+                break
+            if t.kind == 'define':
+                self.advance()
+                self.decls.append(t)          # resolved at the end (all typedefs/enumerators known)
+                continue
+            if self.is_p(';'):
+                self.advance()
+                continue
+            self.external_declaration()
+        out = []
+        for d in self.decls:
+            if isinstance(d, Tok):
+                r = _define(self, d)
+                if r is not None:
+                    out.append(r)
+            else:
+                out.append(d)
+        return out
+
+    def emit(self, d, line, **extra):
+        d['file'] = self.file
+        d['line'] = line
+        d.update(extra)
+        self.decls.append(d)
+
+    def external_declaration(self):
+        t0 = self.peek()
+        w = self.where(t0)
+        sp = self.specifiers(True)
+        if sp.spec is None and not sp.words:
+            raise Unsupported('%s: expected a declaration, found %r' % (w, t0.text))
+        is_typedef = 'typedef' in sp.storage
+        if len(sp.storage) > 1 and not (sp.storage == {'static'} or sp.storage == {'extern'}):
+            raise Unsupported('%s: storage classes %s' % (w, sorted(sp.storage)))
+        if self.is_p(';'):
+            end = self.advance()
+            if sp.storage or sp.inline or sp.q:
+                raise Unsupported('%s: specifiers without a declarator' % w)
+            if sp.spec[0] == 'compound':
+                info = sp.spec[1]
+                if info['tag'] is None:
+                    raise Unsupported('%s: anonymous %s declares nothing' % (w, info['kw']))
+                self.emit({'d': 'compound', 'kind': info['kw'], 'tag': info['tag'], 'typedef': None,
+                           'fields': info['body'], 'typedef_ptrs': []},
+                          info['line_close'] or end.line, line_body=info['line_close'])
+            elif sp.spec[0] == 'enum' and sp.spec[1]['body'] is not None:
+                info = sp.spec[1]
+                self.emit({'d': 'enum', 'name': None, 'tag': info['tag'], 'flags': info['flags'],
+                           'members': info['body']}, end.line)
+            else:
+                raise Unsupported('%s: declaration declares nothing' % w)
+            return
+        if sp.has_body():
+            info = sp.spec[1]
+            if not is_typedef or sp.q or sp.inline:
+                raise Unsupported('%s: %s definition combined with a declarator (only typedef is modelled)' % (w, info['kw']))
+            name, ops, line = self.declarator(False)
+            if not self.is_p(';'):
+                raise Unsupported('%s: several declarators after a %s definition' % (w, info['kw']))
+            self.advance()
+            if any(o[0] != 'ptr' for o in ops):
+                raise Unsupported('%s: array/function typedef of a %s definition' % (w, info['kw']))
+            if info['kw'] == 'enum':
+                if ops:
+                    raise Unsupported('%s: pointer typedef of an enum definition' % w)
+                self.emit({'d': 'enum', 'name': name, 'tag': info['tag'], 'flags': info['flags'],
+                           'members': info['body']}, line)
+            else:
+                self.emit({'d': 'compound', 'kind': info['kw'], 'tag': info['tag'], 'typedef': name,
+                           'fields': info['body'], 'typedef_ptrs': [o[1] for o in reversed(ops)]},
+                          line, line_body=info['line_close'] if info['tag'] else None)
+            self.typedefs.add(name)
+            return
+        base = sp.base_type(w)
+        new_types = []
+        while True:
+            name, ops, line = self.declarator(False)
+            if self.is_p('='):
+                raise Unsupported('%s: initializer' % w)
+            if self.is_p('{'):
+                raise Unsupported('%s: function definition (body)' % w)
+            fun_at = [i for i, o in enumerate(ops) if o[0] == 'fun']
+            if is_typedef:
+                if sp.inline:
+                    raise Unsupported('%s: inline typedef' % w)
+                if fun_at and fun_at[0] == 0 and all(o[0] == 'ptr' for o in ops[1:]):
+                    ret = dict(base, ptrs=[o[1] for o in reversed(ops[1:])], dims=[])
+                    self.emit({'d': 'callback', 'name': name, 'ret': ret, 'params': ops[0][1], 'ptr': False}, line)
+                elif fun_at and fun_at[0] == 1 and ops[0] == ('ptr', 0) and all(o[0] == 'ptr' for o in ops[2:]):
+                    ret = dict(base, ptrs=[o[1] for o in reversed(ops[2:])], dims=[])
+                    self.emit({'d': 'callback', 'name': name, 'ret': ret, 'params': ops[1][1], 'ptr': True}, line)
+                else:
+                    self.emit({'d': 'typedef', 'name': name, 'type': self.data_type(base, ops, w)}, line)
+                new_types.append(name)
+            elif fun_at and fun_at[0] == 0:
+                if not all(o[0] == 'ptr' for o in ops[1:]):
+                    raise Unsupported('%s: function returning %s' % (w, ' '.join(o[0] for o in ops[1:])))
+                if sp.inline and sp.storage != {'static'}:
+                    raise Unsupported('%s: inline without static (the model renders `static inline`)' % w)
+                if not sp.inline and 'static' in sp.storage:
+                    raise Unsupported('%s: static function declaration' % w)
+                ret = dict(base, ptrs=[o[1] for o in reversed(ops[1:])], dims=[])
+                self.emit({'d': 'function', 'name': name, 'ret': ret, 'params': ops[0][1],
+                           'inline': bool(sp.inline)}, line)
+            else:
+                if sp.inline or 'static' in sp.storage:
+                    raise Unsupported('%s: static/inline object' % w)
+                self.emit({'d': 'var', 'name': name, 'type': self.data_type(base, ops, w)}, line)
+            if self.is_p(','):
+                self.advance()
+                continue
+            break
+        self.expect(';')
+        self.typedefs.update(new_types)
+
+
+class _EnumExpr(object):
+    """Integer constant expression over literals and earlier enumerators, int64; records use of <<."""
+    LEVELS = [('|',), ('^',), ('&',), ('<<', '>>'), ('+', '-'), ('*',)]
+
+    def __init__(self, p):
+        self.p = p
+        self.shift = False
+
+    def parse(self):
+        v = self.binary(0)
+        if not -(1 << 63) <= v < (1 << 63):
+            raise Unsupported('%s: enumerator value outside int64' % self.p.where())
+        return v
+
+    def binary(self, lvl):
+        if lvl == len(self.LEVELS):
+            return self.unary()
+        v = self.binary(lvl + 1)
+        while self.p.peek().kind == 'punct' and self.p.peek().text in self.LEVELS[lvl]:
+            op = self.p.advance().text
+            r = self.binary(lvl + 1)
+            if op == '|':
+                v |= r
+            elif op == '^':
+                v ^= r
+            elif op == '&':
+                v &= r
+            elif op == '<<':
+                self.shift = True
+                if r < 0 or r > 63 or v < 0:
+                    raise Unsupported('%s: shift %d << %d' % (self.p.where(), v, r))
+                v <<= r
+            elif op == '>>':
+                if r < 0 or r > 63:
+                    raise Unsupported('%s: shift count' % self.p.where())
+                v >>= r
+            elif op == '+':
+                v += r
+            elif op == '-':
+                v -= r
+            else:
+                v *= r
+            if not -(1 << 63) <= v < (1 << 63):
+                raise Unsupported('%s: overflow in enumerator expression' % self.p.where())
+        t = self.p.peek()
+        if lvl == 0 and t.kind == 'punct' and t.text not in (',', '}', ')'):
+            raise Unsupported('%s: operator %r in an enumerator value' % (self.p.where(t), t.text))
+        return v
+
+    def unary(self):
+        p = self.p
+        t = p.peek()
+        if t.kind == 'punct' and t.text in ('-', '~', '+'):
+            p.advance()
+            n = p.peek()
+            if t.text == '-' and n.kind == 'num' and _int_literal(n, p.where(n))[0] == 1 << 63:
+                p.advance()
+                return -(1 << 63)
+            v = self.unary()
+            return -v if t.text == '-' else (~v if t.text == '~' else v)
+        if t.kind == 'punct' and t.text == '(':
+            if p.starts_type(p.peek(1)):
+                raise Unsupported('%s: cast in an enumerator value' % p.where(t))
+            p.advance()
+            v = self.binary(0)
+            p.expect(')')
+            return v
+        if t.kind == 'num':
+            p.advance()
+            v = _int_literal(t, p.where(t))[0]
+            if v >= 1 << 63:
+                raise Unsupported('%s: literal above INT64_MAX in an enumerator' % p.where(t))
+            return v
+        if t.kind == 'id' and t.text in p.enumerators:
+            p.advance()
+            return p.enumerators[t.text]
+        raise Unsupported('%s: %r in an enumerator value' % (p.where(t), t.text))
+
+
+# ------------------------------------------------------------------------------------ #define
+def _define(parser, tok):
+    """`define` token -> const/macro decl, or None when the front end certainly produces nothing."""
+    where = '%s:%d' % (parser.file, tok.line)
+    name = tok.text
+    if tok.data['params'] is not None:
+        ptxt = tok.data['params'].strip()
+        params = []
+        if ptxt:
+            for part in ptxt.split(','):
+                part = part.strip()
+                if part == '...':
+                    params.append('...')
+                elif re.match(r'[A-Za-z_]\w*$', part):
+                    if part in parser.typedefs:
+                        raise Unsupported('%s: macro parameter %r is a typedef name' % (where, part))
+                    params.append(part)
+                else:
+                    raise Unsupported('%s: macro parameter %r' % (where, part))
+            if '...' in params[:-1]:
+                raise Unsupported('%s: ... not last' % where)
+        return {'d': 'macro', 'name': name, 'params': params, 'file': parser.file, 'line': tok.line}
+    sink = []
+    toks = _lex(tok.data['body'], parser.file, sink, directives=False, line0=tok.line)
+    toks = [t for t in toks if t.kind != 'marker']
+    if len(toks) == 1:
+        return None                    # only a comment after the name: syntax error, nothing emitted
+    mp = _MacroExpr(parser, toks, where)
+    val = mp.parse()
+    if val is None:
+        return None
+    return {'d': 'const', 'name': name, 'value': val, 'file': parser.file, 'line': tok.line}
+
+
+class _MacroExpr(object):
+    def __init__(self, parser, toks, where):
+        self.parser = parser
+        self.toks = toks
+        self.pos = 0
+        self.where = where
+
+    def peek(self, k=0):
+        return self.toks[min(self.pos + k, len(self.toks) - 1)]
+
+    def adv(self):
+        t = self.toks[self.pos]
+        if t.kind != 'eof':
+            self.pos += 1
+        return t
+
+    def is_p(self, text, k=0):
+        t = self.peek(k)
+        return t.kind == 'punct' and t.text == text
+
+    def parse(self):
+        r = self.cast()
+        if self.peek().kind != 'eof':
+            raise Unsupported('%s: macro body continues with %r (operators are outside the model)'
+                              % (self.where, self.peek().text))
+        if r == 'nothing':
+            return None
+        return r
+
+    def cast(self):
+        if self.is_p('('):
+            t1 = self.peek(1)
+            p = self.parser
+            if t1.kind == 'id' and (t1.text in BASIC_WORDS or t1.text in ('void', 'const', 'volatile', 'struct',
+                                                                        'union', 'enum') or p.is_typename(t1)):
+                # a C cast: (type-name) cast-expression
+                self.adv()
+                sub = _Parser(self.toks, p.file, p.typedefs)
+                sub.pos = self.pos
+                sp = sub.specifiers(False)
+                if sp.has_body():
+                    raise Unsupported('%s: type definition in a cast' % self.where)
+                base = sp.base_type(self.where)
+                nm, ops, _ = sub.declarator(True)
+                if nm is not None:
+                    raise Unsupported('%s: malformed cast' % self.where)
+                typ = sub.data_type(base, ops, self.where)
+                self.pos = sub.pos
+                if not self.is_p(')'):
+                    raise Unsupported('%s: malformed cast' % self.where)
+                self.adv()
+                v = self.cast()
+                if v == 'nothing':
+                    return v
+                if v['k'] == 'bool':
+                    raise Unsupported('%s: cast of a boolean' % self.where)
+                if v.get('cast') is not None:
+                    raise Unsupported('%s: cast of a cast' % self.where)
+                v['cast'] = typ
+                return v
+        return self.unary()
+
+    def unary(self):
+        t = self.peek()
+        if t.kind == 'punct' and t.text in ('-', '~'):
+            self.adv()
+            v = self.cast()
+            if v == 'nothing':
+                raise Unsupported('%s: operator applied to a non-constant' % self.where)
+            if v['k'] != 'int' or v.get('cast') is not None:
+                raise Unsupported('%s: %r applied to %s (the front end negates only the integer slot)'
+                                  % (self.where, t.text, 'a cast' if v.get('cast') else v['k']))
+            if t.text == '-':
+                if v['neg'] or v['compl']:
+                    raise Unsupported('%s: stacked unary operators' % self.where)
+                v['neg'] = True
+            else:
+                if v['compl']:
+                    raise Unsupported('%s: stacked unary operators' % self.where)
+                v['compl'] = True
+            return v
+        if t.kind == 'punct' and t.text in ('+', '!', '&', '*', '++', '--'):
+            raise Unsupported('%s: unary %r' % (self.where, t.text))
+        if t.kind == 'id' and t.text in ('G_GINT64_CONSTANT', 'G_GUINT64_CONSTANT'):
+            self.adv()
+            if not self.is_p('('):
+                raise Unsupported('%s: %s without (' % (self.where, t.text))
+            self.adv()
+            n = self.peek()
+            if n.kind != 'num' or not self.is_p(')', 1):
+                raise Unsupported('%s: %s argument is not a plain literal' % (self.where, t.text))
+            self.adv()
+            self.adv()
+            v = self.number(n)
+            if v['k'] != 'int':
+                raise Unsupported('%s: %s of a float' % (self.where, t.text))
+            v['wrap'] = t.text
+            return v
+        return self.postfix()
+
+    def number(self, t):
+        s = t.text
+        if re.match(r'(0[xX][0-9a-fA-F]+|[0-9]+)[uUlL]*$', s):
+            lit, is_hex, us = _int_literal(t, self.where)
+            return {'k': 'int', 'lit': lit, 'neg': False, 'compl': False, 'usuffix': us, 'hex': is_hex,
+                    'wrap': None, 'cast': None}
+        m = re.match(r'((?:[0-9]*\.[0-9]+|[0-9]+\.)(?:[eE][-+]?[0-9]+)?|[0-9]+[eE][-+]?[0-9]+)[fFlL]?$', s)
+        if not m:
+            raise Unsupported('%s: numeric literal %r' % (self.where, s))
+        return {'k': 'double', 'f': float(m.group(1)), 'cast': None}
+
+    def postfix(self):
+        t = self.peek()
+        if t.kind == 'num':
+            self.adv()
+            v = self.number(t)
+        elif t.kind == 'str':
+            parts = []
+            while self.peek().kind == 'str':
+                parts.append(_string_literal(self.adv(), self.where))
+            v = {'k': 'str', 's': ''.join(parts), 'cast': None}
+        elif t.kind == 'chr':
+            raise Unsupported('%s: character constant' % self.where)
+        elif t.kind == 'id' and t.text in ('TRUE', 'FALSE', 'true', 'false'):
+            self.adv()
+            v = {'k': 'bool', 'b': t.text in ('TRUE', 'true')}
+        elif t.kind == 'id':
+            p = self.parser
+            if t.text in p.enumerators:
+                raise Unsupported('%s: macro naming the enumerator %r' % (self.where, t.text))
+            if p.is_typename(t) or t.text in KEYWORDS:
+                raise Unsupported('%s: %r in a macro body' % (self.where, t.text))
+            self.adv()
+            v = 'nothing'              # unknown identifier: an INVALID symbol without value
+        elif self.is_p('('):
+            self.adv()
+            v = self.cast()
+            if self.is_p(','):
+                raise Unsupported('%s: comma expression' % self.where)
+            if not self.is_p(')'):
+                raise Unsupported('%s: %r inside parentheses (operators are outside the model)'
+                                  % (self.where, self.peek().text))
+            self.adv()
+        else:
+            raise Unsupported('%s: %r in a macro body' % (self.where, t.text))
+        while self.is_p('('):
+            # call: the result is an INVALID symbol whatever the (well-formed, type-free) arguments are
+            depth = 0
+            while True:
+                tt = self.adv()
+                if tt.kind == 'eof':
+                    raise Unsupported('%s: unbalanced call' % self.where)
+                if tt.kind == 'id' and (self.parser.is_typename(tt) or tt.text in KEYWORDS):
+                    raise Unsupported('%s: type name %r in call arguments' % (self.where, tt.text))
+                if tt.kind == 'punct' and tt.text == '(':
+                    depth += 1
+                elif tt.kind == 'punct' and tt.text == ')':
+                    depth -= 1
+                    if depth == 0:
+                        break
+                elif tt.kind == 'punct' and tt.text in ('{', '}', ';'):
+                    raise Unsupported('%s: statement in a macro body' % self.where)
+            v = 'nothing'
+        if self.peek().kind == 'punct' and self.peek().text in ('[', '.', '->', '++', '--'):
+            raise Unsupported('%s: postfix %r' % (self.where, self.peek().text))
+        return v
+
+
+# ------------------------------------------------------------------------------------ API
+def parse_header(text, filename='/src/foo.h', extra_typedefs=(), ignore=(), ignore_with_args=(), comments=None,
+                 lines=True):
+    """-> list of cmodel Decl dicts in source order.  `comments`, if a list, receives the
+    (text, filename, line) triples of the /** */ blocks."""
+    sink = comments if comments is not None else []
+    toks = _lex(text, filename, sink)
+    toks = _drop_ignored(toks, IGNORED_MACROS | set(ignore), IGNORED_MACROS_WITH_ARGS | set(ignore_with_args))
+    p = _Parser(toks, filename, set(PRELUDE_TYPEDEFS) | set(extra_typedefs))
+    decls = p.translation_unit()
+    if not lines:
+        for d in decls:
+            d.pop('line', None)
+            d.pop('line_body', None)
+    else:
+        for d in decls:
+            if 'line_body' in d and d['line_body'] is None:
+                del d['line_body']
+    return decls
+
+
+# ------------------------------------------------------------------------------------ normalise
+def _n_type(t):
+    if t.get('fp') is not None:
+        return {'fp': {'ret': _n_type(t['fp']['ret']), 'params': _n_params(t['fp']['params'])},
+                'dims': list(t.get('dims', []))}
+    return {'base': t['base'], 'kind': t['kind'], 'q': t.get('q', 0), 'ptrs': list(t.get('ptrs', [])),
+            'dims': list(t.get('dims', []))}
+
+
+def _n_params(params):
+    return [{'ellipsis': True} if p.get('ellipsis') else {'name': p.get('name'), 'type': _n_type(p['type'])}
+            for p in params]
+
+
+def _n_fields(fields):
+    out = []
+    for f in fields:
+        if f.get('anon'):
+            out.append({'name': f.get('name'), 'anon': f['anon'], 'fields': _n_fields(f['fields']),
+                        'dims': list(f.get('dims', [])), 'private': bool(f.get('private'))})
+        else:
+            out.append({'name': f.get('name'), 'type': _n_type(f['type']), 'bits': f.get('bits'),
+                        'private': bool(f.get('private'))})
+    return out
+
+
+def normalise(decls, default_file='/src/foo.h', keep_lines=False, effective=True):
+    """Canonical form.  Field privacy is taken through cmodel.effective_fields (what the rendered
+    markers mean to the lexer); a body-less `typedef struct T N;` is a 'typedef' decl."""
+    from vlib import cmodel
+    out = []
+    for d in decls:
+        k = d['d']
+        if k == 'function':
+            n = {'d': k, 'name': d['name'], 'ret': _n_type(d['ret']), 'params': _n_params(d['params']),
+                 'inline': bool(d.get('inline'))}
+        elif k == 'typedef' and d['type'].get('fp') is not None and not d['type'].get('dims'):
+            fp = d['type']['fp']
+            n = {'d': 'callback', 'name': d['name'], 'ret': _n_type(fp['ret']), 'params': _n_params(fp['params']),
+                 'ptr': True}
+        elif k == 'typedef':
+            n = {'d': k, 'name': d['name'], 'type': _n_type(d['type'])}
+        elif k == 'callback':
+            n = {'d': k, 'name': d['name'], 'ret': _n_type(d['ret']), 'params': _n_params(d['params']),
+                 'ptr': bool(d.get('ptr', True))}
+        elif k == 'compound':
+            if d.get('fields') is None and d.get('typedef'):
+                n = {'d': 'typedef', 'name': d['typedef'],
+                     'type': {'base': d['tag'], 'kind': d['kind'], 'q': 0,
+                              'ptrs': list(d.get('typedef_ptrs', [])), 'dims': []}}
+            else:
+                fl = d.get('fields')
+                n = {'d': k, 'kind': d['kind'], 'tag': d.get('tag'), 'typedef': d.get('typedef'),
+                     'fields': None if fl is None else _n_fields(cmodel.effective_fields(fl) if effective else fl),
+                     'typedef_ptrs': list(d.get('typedef_ptrs', [])) if d.get('typedef') else []}
+        elif k == 'enum':
+            n = {'d': k, 'name': d.get('name'), 'tag': d.get('tag'), 'flags': bool(d.get('flags')),
+                 'members': [{'name': m['name'], 'value': m.get('value'),
+                              'shift': bool(m.get('shift')) and m.get('value') is not None,
+                              'private': bool(m.get('private'))} for m in d['members']]}
+        elif k == 'const':
+            v = d['value']
+            if v['k'] == 'int':
+                nv = {'k': 'int', 'lit': v['lit'], 'neg': bool(v.get('neg')), 'compl': bool(v.get('compl')),
+                      'usuffix': bool(v.get('usuffix')), 'hex': bool(v.get('hex')), 'wrap': v.get('wrap')}
+            elif v['k'] == 'str':
+                nv = {'k': 'str', 's': v['s']}
+            elif v['k'] == 'double':
+                nv = {'k': 'double', 'f': float(v['f'])}
+            else:
+                nv = {'k': 'bool', 'b': bool(v['b'])}
+            if v['k'] != 'bool':
+                nv['cast'] = _n_type(v['cast']) if v.get('cast') is not None else None
+            n = {'d': k, 'name': d['name'], 'value': nv}
+        elif k == 'macro':
+            n = {'d': k, 'name': d['name'], 'params': list(d['params'])}
+        elif k == 'var':
+            n = {'d': k, 'name': d['name'], 'type': _n_type(d['type'])}
+        else:
+            raise ValueError(k)
+        n['file'] = d.get('file', default_file)
+        if keep_lines:
+            for key in ('line', 'line_body'):
+                if d.get(key) is not None:
+                    n[key] = d[key]
+        out.append(n)
+    return out
